@@ -424,10 +424,16 @@ func c09Units(ctx *core.Ctx) []core.Unit {
 	var scs []sc
 	for _, c := range []int{4, 5, 6, 7, 8, 9, 10, 11, 12, 13, 14, 15, 16} {
 		for _, n := range []int{1, 2, 3, 5} {
-			if !ctx.Thorough() && c > 8 && n != 3 {
+			if !ctx.Thorough() && c > 8 && c <= 12 && n != 3 {
 				continue
 			}
+			if !ctx.Thorough() && c > 12 && n > 1 {
+				continue // 2^12..2^15 buckets per chunk make one execution slow: the larger windows run on n = 1 in quick
+			}
 			for _, spl := range []bool{false, true} {
+				if !ctx.Thorough() && c > 14 && spl {
+					continue // 2^14+ buckets per chunk: one controlled execution takes seconds
+				}
 				scs = append(scs, sc{fmt.Sprintf("internal c=%d n=%d split=%v", c, n, spl), c, n, 0, spl})
 			}
 		}
